@@ -5,7 +5,7 @@
    options, target / routing / session set-up, cmd_raw, error -> exit status. *)
 From Coq Require Import String Ascii.
 From Coq Require Import NArith ZArith List Bool.
-From Coq Require Import Decimal Hexadecimal DecimalString HexadecimalString.
+From Coq Require Decimal Hexadecimal DecimalString HexadecimalString.
 From PyIpmi Require Import Lib.Res Lib.Bytes Lib.Prog.
 Import ListNotations.
 Open Scope string_scope.
